@@ -24,14 +24,16 @@ DESTRUCTORS = ["cond_free", "dir_free", "dirent_free", "err_free", "hash_free", 
                "mmap_free", "mutex_free", "prof_free", "rwlock_free", "rwlockg_free", "sa_free", "sem_free", "shm_free",
                "shmbuf_free", "sock_free", "spin_free", "str_free", "strlist_free", "thread_unref", "tls_free", "tree_free"]
 SYSCALLS = ["mmap", "ftruncate", "shm_open", "socket", "pthread_create", "pthread_key_create", "pthread_mutex_init",
-            "pthread_cond_init", "dlopen", "fcntl", "sem_open", "fcntl", "sem_open"]
+            "pthread_cond_init", "dlopen", "fcntl", "sem_open", "fcntl", "sem_open", "fstat", "fstat", "getsockopt", "getsockopt",
+            "pthread_attr_init", "pthread_attr_setdetachstate", "munmap"]
 
 
 def call_pool(rng):
     sl = lambda: rng.randrange(NS)
     e = lambda: rng.choice(["x", str(NS), str(NS + 1)])
     return [
-        "strdup %d" % sl(), "strchomp %d %d" % (sl(), rng.randrange(3)), "strtok %d" % sl(), "strtod", "str_free %d" % sl(),
+        "strdup %d" % sl(), "strchomp %d %d" % (sl(), rng.randrange(3)), "strtok %d" % sl(), "strtod", "str_free %d" % sl(), "str_realloc %d" % sl(),
+        "inval %d %s" % (rng.randrange(37), e()), "inval %d %s" % (rng.randrange(37), e()),
         "list_new %d" % sl(), "list_append %d %d" % (sl(), rng.randrange(4)), "list_prepend %d %d" % (sl(), rng.randrange(4)),
         "list_remove %d %d" % (sl(), rng.randrange(4)), "list_free %d" % sl(), "strlist_free %d" % sl(),
         "tree_new %d %d" % (sl(), rng.randrange(3)), "tree_insert %d %d" % (sl(), rng.randrange(6)), "tree_remove %d %d" % (sl(), rng.randrange(6)),
@@ -50,8 +52,8 @@ def call_pool(rng):
         "ipc_key %d %d" % (sl(), rng.randrange(2)), "ipc_tmpdir %d" % sl(),
         "dir_new %d %d %s" % (sl(), rng.randrange(2), e()), "dir_next %d %d %s" % (sl(), sl(), e()), "dir_path %d %d" % (sl(), sl()),
         "dir_rewind %d" % sl(), "dirent_free %d" % sl(), "dir_free %d" % sl(), "file_remove_missing %s" % e(),
-        "sa_new %d %d" % (sl(), rng.randrange(3)), "sa_any %d %d" % (sl(), rng.randrange(2)), "sa_loop %d %d" % (sl(), rng.randrange(2)),
-        "sa_native %d" % sl(), "sa_addr %d %d" % (sl(), sl()), "sa_free %d" % sl(),
+        "sa_new %d %d" % (sl(), rng.randrange(3)), "sa_any %d %d" % (sl(), rng.randrange(3)), "sa_loop %d %d" % (sl(), rng.randrange(3)),
+        "sa_native %d" % sl(), "sa_native %d %d" % (sl(), rng.randrange(5)), "sa_addr %d %d" % (sl(), sl()), "sa_free %d" % sl(),
         "sock_new %d %d %s" % (sl(), rng.randrange(2), e()), "sock_bad %s" % e(), "sock_listen %d %s" % (sl(), e()),
         "sock_connect %d %d %s" % (sl(), sl(), e()), "sock_connect_refused %d %s" % (sl(), e()), "sock_connect_timeout %d %s" % (sl(), e()),
         "sock_accept %d %d %s" % (sl(), sl(), e()), "sock_local %d %d %s" % (sl(), sl(), e()), "sock_remote %d %d %s" % (sl(), sl(), e()),
@@ -64,9 +66,10 @@ def call_pool(rng):
         "spin_new %d" % sl(), "spin_free %d" % sl(), "prof_new %d" % sl(), "prof_free %d" % sl(), "rwlockg_new %d" % sl(), "rwlockg_free %d" % sl(),
         "lock_cycle %d" % sl(),
         "thread_run %d %d %d %s" % (sl(), rng.randrange(2), rng.randrange(2), rng.choice(["x", str(sl())])), "thread_unref %d" % sl(),
+        "thread_run_long %d %d %d %s" % (sl(), rng.randrange(2), rng.randrange(2), rng.choice(["x", str(sl())])),
         "tls_new %d" % sl(), "tls_set %d" % sl(), "tls_replace %d" % sl(), "tls_get %d" % sl(), "tls_free %d" % sl(), "cur_thread",
         "loader_new %d %d" % (sl(), rng.randrange(3)), "loader_sym %d" % sl(), "loader_err %d" % sl(), "loader_free %d" % sl(),
-        "mmap_new %d %d %s" % (sl(), rng.randrange(3), e()), "mmap_free %d" % sl(),
+        "mmap_new %d %d %s" % (sl(), rng.randrange(3), e()), "mmap_free %d" % sl(), "mmap_unmap %d %s" % (sl(), e()),
     ]
 
 
@@ -90,7 +93,7 @@ def gen_case(rng, n, chk):
             ops.append("call sysfail " + rng.choice(SYSCALLS))
             chk.bump("inject:syscall")
         elif r < 0.115:
-            ops += ["call lib_shutdown", "call lib_init"]
+            ops += ["call lib_shutdown", rng.choice(["call lib_init", "call lib_init_full"])]
             chk.bump("init-shutdown")
         else:
             c = rng.choice(call_pool(rng))
@@ -157,9 +160,54 @@ def directed_cases():
     out.append(["begin", "call lib_init", "call lib_shutdown", "call lib_init", "call cur_thread", "call lib_shutdown", "call lib_init",
                 "call tls_new 0", "call tls_set 0", "call thread_run 1 1 1 0", "call thread_run 2 0 1 0", "call thread_unref 2", "call thread_unref 1",
                 "call tls_free 0", "call lib_shutdown", "end"])
+    # threads that leave through p_uthread_exit (joinable: the join sees the code; detached), with and without a value in
+    # thread-local storage, with a name longer than the system allows (a truncated copy is made and released).  No allocation
+    # failures here: a thread whose structure could not be stored makes p_uthread_exit allocate a stand-in, which the
+    # model's thread body does not describe
+    out.append(["begin", "call lib_init_full", "call tls_new 1", "call thread_run 0 1 2 x", "call thread_unref 0", "call thread_run 0 1 2 1", "call thread_unref 0",
+                "call thread_run 2 0 2 x", "call thread_unref 2", "call thread_run_long 3 1 2 1", "call thread_unref 3", "call thread_run_long 3 0 0 x",
+                "call thread_unref 3", "call tls_free 1", "call lib_shutdown", "end"])
+    # the size of an existing segment cannot be read (fstat fails), the type of a descriptor cannot be read (getsockopt fails),
+    # munmap fails: the descriptor / structure is released, the mapping stays the caller's
+    out.append(["begin", "call lib_init", "call shm_new 0 1 0 12", "call sysfail fstat", "call shm_new 1 1 0 12", "call shm_new 1 1 2 12", "call sysfail mmap",
+                "call shm_new 2 1 0 12", "call shm_free 1", "call shm_cycle 0 12", "call shm_free 0", "call sysfail getsockopt", "call sock_from_fd 3 12",
+                "call sock_new 4 0 12", "call sock_listen 4 12", "call sock_new 5 0 12", "call sock_connect 5 4 12", "call sysfail getsockopt",
+                "call sock_accept 4 6 12", "call sock_free 5", "call sock_free 4", "call mmap_new 7 1 12", "call sysfail munmap", "call mmap_unmap 7 12",
+                "call mmap_unmap 7 12", "call err_free 12", "call lib_shutdown", "end"])
     out.append(["begin", "call lib_init", "call loader_new 0 0", "call loader_sym 0", "call loader_new 1 2", "call loader_err 2", "call str_free 2",
                 "call loader_free 0", "call loader_new 0 1", "call lib_shutdown", "end"])
     return out
+
+
+def scenario_cases(rng, chk, thorough):
+    """every scenario of the C18 table (the model's `list` / `dump NAME`) as a C20 sequence: the resource counts after
+    every call of the sequences that reach the rarely taken paths (I/O on closed sockets, the datagram echo, INI getters on
+    parsed files, scripted system-call failures).  Each is run clean and with an allocation failure (once / from k on)
+    injected right after the library start; the scenario's own clean-up has to end at all zeros, whatever failed."""
+    rc, names, err = resfam.run_m("list\n")
+    if rc != 0 or not names:
+        raise pv.BuildError("the model driver does not answer `list`: " + err[-300:])
+    names = [n for n in names[0].split() if thorough or not n.startswith("long_")]
+    rc, dumps, err = resfam.run_m("".join("dump %s\n" % n for n in names))
+    out = []
+    for n, d in zip(names, dumps):
+        lines = d.split(";")
+        if n in F5_SCENARIOS:
+            continue            # finding F5: exercised once, by the directed sequence above
+        sweep = ["call %s %d" % (f, i) for i in range(24) for f in DESTRUCTORS] if thorough else []
+        out.append(["begin"] + ["call " + l for l in lines] + ["end"])
+        chk.bump("scenario-sequence")
+        for mode in (("once", "from") if not thorough else ("once", "from", "once", "from", "once")):
+            k = rng.randrange(1, 14 if n.startswith(("ini", "cross", "long")) else 8)
+            at = 1 + rng.randrange(max(1, min(3, len(lines) - 1)))
+            seq = ["call " + l for l in lines]
+            seq.insert(at, "fail %s %d" % (mode, k))
+            out.append(["begin"] + seq + ["fail none 0"] + sweep + ["end"])
+            chk.bump("scenario-sequence:inject")
+    return out
+
+
+F5_SCENARIOS = ("shm_two_smaller", "shmbuf_two_diff")
 
 
 def spec_view(op, line):
@@ -204,7 +252,7 @@ def run(chk):
         fam = diffrun.Family("res", exe, spec_view=spec_view, env={"PVRES_DIR": scratch}, timeout=600)
         thorough = chk.tier == "thorough"
         rng = chk.rng
-        cases = pv.load_corpus("C20") + directed_cases()
+        cases = pv.load_corpus("C20") + directed_cases() + scenario_cases(rng, chk, thorough)
         nrand = 1200 if thorough else 220
         lengths = [30, 80, 200, 400] if thorough else [20, 60, 120]
         cases += [gen_case(rng, rng.choice(lengths), chk) for _ in range(nrand)]
